@@ -1,0 +1,5 @@
+// Package verifhook forwards yield points placed in the library to a handler
+// installed by a verification harness.  Everything in it except this file is
+// compiled only with the build tag "verif"; without the tag the package is
+// empty and the library does not import it.
+package verifhook
